@@ -1,0 +1,27 @@
+// SPDX-FileCopyrightText: 2022-present Intel Corporation
+//
+// SPDX-License-Identifier: Apache-2.0
+
+//go:build verif
+
+// Contracts for the deductive verifier in /verif (govc). Comment-only: this file contains no code
+// and is excluded from every build that does not set the "verif" tag.
+
+package configuration
+
+//@ import configapi "github.com/onosproject/onos-api/go/onos/config/v2"
+
+//@ spec cfgReady(c *configapi.Configuration) bool = c != nil && cfgSnapshotted(c) && readCfgOK && readCfgIndex == c.Index && readCfgProposed == c.Status.Proposed.Index && readCfgCommitted == c.Status.Committed.Index && readCfgApplied == c.Status.Applied.Index && readCfgState == c.Status.State && readCfgTerm == c.Status.Mastership.Term && readCfgAppliedTerm == c.Status.Applied.Mastership.Term && readCfgMaster == c.Status.Mastership.Master && c.Status.Applied.Mastership.Term <= c.Status.Mastership.Term && (c.Values == nil || c.Values != c.Status.Applied.Values)
+
+//@ func (*Reconciler).reconcileConfiguration
+//@   props C04, C10, C07
+//@   requires r != nil && cfgReady(config)
+//@   ensures {C04,C10} resync-writes-no-values: cfgValueWrites == old(cfgValueWrites) && cfgCreates == old(cfgCreates) && cfgStatusWrites <= old(cfgStatusWrites) + 1
+//@   ensures {C04,C10} resync-keeps-indexes: cfgStatusWrites > old(cfgStatusWrites) ==> writtenCfgProposed == readCfgProposed && writtenCfgCommitted == readCfgCommitted && writtenCfgApplied == readCfgApplied && writtenCfgIndex == readCfgIndex && writtenCfgTerm == readCfgTerm && writtenCfgMaster == readCfgMaster
+//@   ensures {C04,C10} push-only-while-synchronizing: deviceSetCalls > old(deviceSetCalls) ==> readCfgState == configapi.ConfigurationStatus_SYNCHRONIZING && readCfgMaster != "" && readCfgApplied != 0
+//@   ensures {C10} push-carries-term: deviceSetCalls > old(deviceSetCalls) ==> lastSetHasArbitration && lastSetElectionLow == readCfgTerm && lastSetElectionHigh == 0
+//@   ensures {C04,C10} term-adopted-after-push: cfgStatusWrites > old(cfgStatusWrites) && writtenCfgAppliedTerm != readCfgAppliedTerm ==> writtenCfgAppliedTerm == readCfgTerm && writtenCfgState == configapi.ConfigurationStatus_SYNCHRONIZED && readCfgState == configapi.ConfigurationStatus_SYNCHRONIZING && deviceSetFailures == old(deviceSetFailures)
+//@   ensures {C04,C10} synchronized-only-after-clean-push: cfgStatusWrites > old(cfgStatusWrites) && writtenCfgState == configapi.ConfigurationStatus_SYNCHRONIZED && readCfgState != configapi.ConfigurationStatus_SYNCHRONIZED ==> readCfgState == configapi.ConfigurationStatus_SYNCHRONIZING && readCfgMaster != "" && deviceSetFailures == old(deviceSetFailures) && writtenCfgAppliedTerm == readCfgTerm
+//@   ensures {C04} stale-term-starts-resync: cfgStatusWrites > old(cfgStatusWrites) && readCfgState != configapi.ConfigurationStatus_SYNCHRONIZING && writtenCfgState != configapi.ConfigurationStatus_PERSISTED ==> writtenCfgState == configapi.ConfigurationStatus_SYNCHRONIZING && readCfgTerm > readCfgAppliedTerm && writtenCfgAppliedTerm == readCfgAppliedTerm
+//@   loop 2 invariant deviceSetFailures == old(deviceSetFailures) && cfgStatusWrites == old(cfgStatusWrites) && cfgValueWrites == old(cfgValueWrites) && cfgCreates == old(cfgCreates) && (deviceSetCalls > old(deviceSetCalls) ==> lastSetHasArbitration && lastSetElectionLow == readCfgTerm && lastSetElectionHigh == 0) && deviceSetCalls >= old(deviceSetCalls)
+//@   loop 1 invariant deviceSetFailures == old(deviceSetFailures) && cfgStatusWrites == old(cfgStatusWrites) && cfgValueWrites == old(cfgValueWrites) && cfgCreates == old(cfgCreates) && deviceSetCalls == old(deviceSetCalls)
